@@ -427,19 +427,33 @@ def suspend_scenario(draw):
             frames[src]["acts"].insert(idx, act)
         else:
             frames[src]["acts"].append(act)
-    # optional second conditional aux on another frame of the chain
-    if draw(st.integers(0, 2)) == 0:
-        other = draw(st.sampled_from(chain))
-        t2 = draw(st.integers(1, 6))
-        frames[other]["acts"].append({"kind": "aux", "name": "x1", "needs": [geq(t2)]})
-        d2 = draw(st.sampled_from(["immediate", 0, 1, 3, None]))
-        ya = {"name": "ya", "over": None, "acts": []}
-        fr2 = {"name": "x1", "sched": "aux", "order": None, "period": None, "first": None, "frames": [ya]}
+    # optional further conditional auxes on frames of the chain: one at a drawn place, or (stack) one on each of
+    # up to two other frames of the chain, started bottom-up on successive ticks so that several conditional auxes
+    # of one outline run together and an upper one can complete while lower ones still run
+    extra = draw(st.sampled_from(["none", "none", "one", "one", "stack", "stack"]))
+    plan = []
+    if extra == "one":
+        plan.append((draw(st.sampled_from(chain)), draw(st.integers(1, 6)), draw(st.sampled_from(["immediate", 0, 1, 3, None]))))
+    elif extra == "stack":
+        rest = [n for n in chain if n != main][:2]      # chain is bottom-up: lowest frames first
+        members = sorted(rest + [main], key=chain.index)
+        for n in rest:
+            # start ticks follow the position in the chain relative to the main frame of x0 (lower frames earlier),
+            # the topmost conditional aux of the stack is short lived, the lower ones long lived
+            t2 = max(1, t_start + chain.index(n) - chain.index(main))
+            d2 = draw(st.sampled_from([0, 1, 1])) if n == members[-1] else draw(st.sampled_from([3, 5, None, None]))
+            plan.append((n, t2, d2))
+    for k, (other, t2, d2) in enumerate(plan):
+        nm = "x%d" % (k + 1)
+        pre = "yz"[k]
+        frames[other]["acts"].append({"kind": "aux", "name": nm, "needs": [geq(t2)]})
+        ya = {"name": pre + "a", "over": None, "acts": []}
+        fr2 = {"name": nm, "sched": "aux", "order": None, "period": None, "first": None, "frames": [ya]}
         if d2 == "immediate":
             ya["acts"].append({"kind": "done", "targets": ["me"]})
         elif d2 is not None:
-            ya["acts"].append({"kind": "go", "far": "yb", "needs": [geq(t2 + d2)]})
-            fr2["frames"].append({"name": "yb", "over": None, "acts": [{"kind": "done", "targets": ["me"]}]})
+            ya["acts"].append({"kind": "go", "far": pre + "b", "needs": [geq(t2 + d2)]})
+            fr2["frames"].append({"name": pre + "b", "over": None, "acts": [{"kind": "done", "targets": ["me"]}]})
         auxes.append(fr2)
     framers = [{"name": "drv", "sched": "active", "order": "front", "period": None, "first": None,
                 "frames": [{"name": "drva", "over": None, "acts": [{"kind": "inc", "dst": ".n.a", "val": 1, "ctx": "recur"}]}]},
@@ -455,6 +469,62 @@ def suspend_scenario(draw):
                         "period": None, "first": None, "frames": kf})
     return {"period": "0.125", "ticks": draw(st.integers(6, 14)), "inits": [[p, 0] for p in NUM],
             "framers": framers}
+
+
+@st.composite
+def shared_cond_scenario(draw):
+    """One conditional aux framer used by two frames of its owner one after the other (A then B, optionally back to
+    A), whose first frame carries an entry guard: attempts are refused while the guard is false (in A and / or in
+    B), the owner moves on, and the next user's attempt must succeed as soon as conditions and guard hold.
+    Sub frames below A and B make the suspension observable."""
+    geq = lambda k: {"kind": "cmp", "state": ".n.a", "op": ">=", "goal": k, "neg": False}
+    lt = lambda k: {"kind": "cmp", "state": ".n.a", "op": "<", "goal": k, "neg": False}
+
+    def obs(ctxs=("enter", "recur", "exit")):
+        out = []
+        for ctx, path in (("enter", ".n.b"), ("recur", ".n.c"), ("exit", ".n.b")):
+            if ctx in ctxs and draw(st.integers(0, 3)) > 0:
+                out.append({"kind": "inc", "dst": path, "val": 1, "ctx": ctx})
+        return out
+    ca = draw(st.integers(1, 3))            # condition of the aux clause in A holds from this tick
+    tl = ca + draw(st.integers(0, 3))       # A -> B
+    cb = draw(st.integers(1, tl + 2))       # condition of the aux clause in B
+    guard_kind = draw(st.sampled_from(["geq", "geq", "window"]))
+    g = draw(st.integers(1, tl + 3))
+    guard = [geq(g)] if guard_kind == "geq" else [geq(g), lt(g + draw(st.integers(1, 3)))]
+    dur = draw(st.sampled_from([0, 1, 2, None]))
+    back = draw(st.sampled_from([None, None, tl + draw(st.integers(2, 5))]))
+    A = {"name": "a", "over": None, "acts": obs()}
+    A1 = {"name": "a1", "over": "a", "acts": obs()}
+    B = {"name": "b", "over": None, "acts": obs()}
+    B1 = {"name": "b1", "over": "b", "acts": obs()}
+    goab = {"kind": "go", "far": "b", "needs": [geq(tl)]}
+    auxa = {"kind": "aux", "name": "x0", "needs": [geq(ca)]}
+    if draw(st.booleans()):
+        A["acts"] += [goab, auxa]
+    else:
+        A["acts"] += [auxa, goab]
+    B["acts"].append({"kind": "aux", "name": "x0", "needs": [geq(cb)]})
+    if back is not None:
+        B["acts"].insert(draw(st.integers(0, len(B["acts"]))), {"kind": "go", "far": "a", "needs": [geq(back)]})
+    xa = {"name": "xa", "over": None, "acts": [{"kind": "let", "needs": guard}] + obs(("enter", "recur"))}
+    xframes = [xa]
+    if dur is not None:
+        xa["acts"].append({"kind": "repeat", "n": dur})
+        xframes.append({"name": "xb", "over": None, "acts": [{"kind": "done", "targets": ["me"]}]})
+    framers = [{"name": "drv", "sched": "active", "order": "front", "period": None, "first": None,
+                "frames": [{"name": "drva", "over": None, "acts": [{"kind": "inc", "dst": ".n.a", "val": 1, "ctx": "recur"}]}]},
+               {"name": "m0", "sched": "active", "order": None, "period": None, "first": None, "frames": [A, A1, B, B1]},
+               {"name": "x0", "sched": "aux", "order": None, "period": None, "first": None, "frames": xframes}]
+    return {"period": "0.125", "ticks": draw(st.integers(8, 16)), "inits": [[p, 0] for p in NUM], "framers": framers}
+
+
+@st.composite
+def cond_scenarios(draw):
+    """suspension scenarios (3 of 4) and shared guarded conditional aux scenarios (1 of 4)"""
+    if draw(st.integers(0, 3)) == 0:
+        return draw(shared_cond_scenario())
+    return draw(suspend_scenario())
 
 
 @st.composite
